@@ -63,3 +63,63 @@ Theorem C07_retry_offers_oldest_only : forall q e e',
   q_is_oldest q e = true -> In e' q -> ce_id (q_local e') = ce_id (q_local e) -> (q_num e <= q_num e')%Z.
 Proof. exact oldest_is_minimal. Qed.
 Print Assumptions C07_retry_offers_oldest_only.
+
+(** ** healing: "once handlers stop failing the queue drains on retry"
+    From ANY state of a client without trashbin whose queue registers no parent (whatever the
+    eight caches and the queue hold, whatever the remediation policy, however the state was
+    reached), one [__retryErrorQueue] with handlers that all succeed either empties the queue
+    or ends on an unexpected exception (the wedges recorded as findings F5 / F19 / F32: a retried
+    event that meets no object).  Queue numbers strictly increasing and "no parent registered"
+    are what [q_append] maintains (last two theorems). *)
+From Hermes Require Import Proofs.ClientDrain.
+From Coq Require Import Sorting.Sorted.
+Theorem C07_healthy_retry_drains_the_queue : forall c,
+  cc_retention c = None -> forall st, l_trash st = ∅ -> no_parents (queue st) ->
+  StronglySorted Z.lt (map q_num (queue st)) ->
+  let st' := retry_queue c healthy st in
+  exc st' = true \/ queue st' = [].
+Proof. exact healthy_retry_drains. Qed.
+Print Assumptions C07_healthy_retry_drains_the_queue.
+(** every direct processing step of a retry with a healthy handler succeeds or raises, and the
+    queue only loses entries *)
+Theorem C07_healthy_retry_step : forall c,
+  cc_retention c = None -> forall st rev lev, l_trash st = ∅ ->
+  let r := process_remote c healthy FUEL st rev lev false false in
+  (snd r = true \/ exc (fst r) = true) /\ (forall e, In e (queue (fst r)) -> In e (queue st)) /\
+  (l_trash st = ∅ -> l_trash (fst r) = ∅).
+Proof. exact process_remote_h. Qed.
+Print Assumptions C07_healthy_retry_step.
+Theorem C07_append_keeps_numbers_increasing : forall c st remote lev msg,
+  cc_remed c = RDisabled -> StronglySorted Z.lt (map q_num (queue st)) ->
+  StronglySorted Z.lt (map q_num (queue (q_append c st remote lev msg))).
+Proof. exact q_append_keeps_sorted. Qed.
+Print Assumptions C07_append_keeps_numbers_increasing.
+Theorem C07_append_registers_no_parent_without_fk : forall c st remote lev msg,
+  cc_remed c = RDisabled -> Forall (fun ct => ct_fks ct = []) (cc_types c) -> no_parents (queue st) ->
+  no_parents (queue (q_append c st remote lev msg)).
+Proof. exact q_append_no_parents. Qed.
+Print Assumptions C07_append_registers_no_parent_without_fk.
+
+(** non-vacuity: object (1,5) is on the target; its 'modified' failed and a second 'modified'
+    was queued behind it; the hypotheses hold, the healthy retry applies both in order (two
+    handler calls, the queue is empty, no exception, live = expected state) *)
+Definition dr_cfg : ccfg := CCfg [CType 1 [(10%N, 1%N); (11%N, 2%N)] [] 99] None FKDisabled RDisabled 99 [1%N].
+Definition dr_obj : obj := {[ 10%N := VInt 5; 11%N := VInt 0 ]}.
+Definition dr_ev (v : Z) : cev := CEv 1 5 (KModified (MDiff ∅ {[ 11%N := VInt v ]} ∅)) 0 0 false.
+Definition dr_rev (v : Z) : cev := CEv 1 5 (KModified (MDiff ∅ {[ 2%N := VInt v ]} ∅)) 0 0 false.
+Definition dr_state : cstate :=
+  CState {[ (1%N, 5%Z) := {[ 1%N := VInt 5; 2%N := VInt 0 ]} ]} ∅ {[ (1%N, 5%Z) := {[ 1%N := VInt 5; 2%N := VInt 2 ]} ]} ∅
+         {[ (1%N, 5%Z) := dr_obj ]} ∅ {[ (1%N, 5%Z) := {[ 10%N := VInt 5; 11%N := VInt 2 ]} ]} ∅
+         [QEntry 1 (Some (dr_rev 1)) (dr_ev 1) true []; QEntry 2 (Some (dr_rev 2)) (dr_ev 2) true []]
+         2 [] 0 false false false false [].
+Example C07_drain_hypotheses_hold :
+  cc_retention dr_cfg = None /\ l_trash dr_state = ∅ /\ no_parents (queue dr_state) /\
+  StronglySorted Z.lt (map q_num (queue dr_state)).
+Proof. repeat split; try reflexivity; repeat constructor. Qed.
+Example C07_drain_example :
+  let st' := retry_queue dr_cfg healthy dr_state in
+  queue st' = [] /\ exc st' = false /\ length (calls st') = 2%nat /\
+  (l_live st' !! (1%N, 5%Z)) ≫= (.!! 11%N) = Some (VInt 2) /\
+  (lc_live st' !! (1%N, 5%Z)) ≫= (.!! 11%N) = Some (VInt 2) /\
+  (r_live st' !! (1%N, 5%Z)) ≫= (.!! 2%N) = Some (VInt 2).
+Proof. vm_compute. repeat split; reflexivity. Qed.
